@@ -142,7 +142,7 @@ for pid, p in props.items():
 ## What to deliver: TWO independent seeded changes (call them A and B)
 For each of A and B:
 1. A small, plausible-looking source change to the SDK (the kind of slip or "refactoring"/"optimisation" a developer could make), in rust/ommx/src (or proto/ / python bindings only if the property is about them), that makes the property FALSE for some inputs / histories / orders, yet (a) compiles without errors, (b) keeps all existing tests passing, and (c) does NOT show up under ordinary, simplest use: it must need something specific to manifest — a particular input shape (e.g. a repeated id, an absent optional field, a zero/negative/fractional value, a specific representation), a multi-step sequence of operations, a particular map iteration order, an unusual but legal combination, or two cooperating edits that each look fine alone. Do not make the whole feature obviously broken (a change that every caller would notice at once is useless here). A and B must break the property in DIFFERENT ways (different code sites or different clauses of the property).
-2. A demonstration: a Rust integration test file (it will live at rust/ommx/tests/{demo}_<a|b>.rs; use only the public API of the `ommx` crate and its re-exports, plus std) with one or more `#[test]` functions that PASS on the unmodified code and FAIL with your change applied. The test must check the property's statement directly (not implementation details). Verify both directions yourself: run it without the change (`git stash` or apply/revert your patch) and with it: `cargo test -p ommx --offline --test {demo}_a`.
+2. A demonstration: a Rust integration test file (it will live at rust/ommx/tests/{demo}_<a|b>.rs; use only the public API of the `ommx` crate and its re-exports, plus std) with one or more `#[test]` functions that PASS on the unmodified code and FAIL with your change applied. The test must check the property's statement directly (not implementation details). Verify both directions yourself: run it without the change (apply/revert your patch with `git apply` / `git apply -R`; never use `git stash`, it is shared between worktrees) and with it: `cargo test -p ommx --offline --test {demo}_a`.
 3. Confirm the full existing suite still passes with the change applied (run the nextest command above with each change applied separately; the demo test file may be present — it is expected to fail with the change, so exclude it from this judgement or move it away while you run the suite).
 
 ## Output (in {out})
